@@ -1,0 +1,44 @@
+//go:build verif
+
+package iqr
+
+// Abstract view of an intermediate query result used by the C05/C06
+// contracts on the pipeline processors: an IQR stands for the interval
+// [iqrStart, iqrStart+iqrN) of the ordered record stream.  The operations
+// below iterate string-keyed maps of column values and are outside the
+// verifier's subset; their contracts over the view are ASSUMED (listed in
+// every evidence file that uses them).
+//@ ghostdecl iqrN int
+//@ ghostdecl iqrStart int
+
+//@ func (*IQR).NumberOfRecords
+//@   assumed
+//@   pure
+//@   ensures implies(iqr == nil, result == 0)
+//@   ensures implies(iqr != nil, result == ghost(iqr, "iqrN") && result >= 0)
+//@ end
+
+//@ func (*IQR).Discard
+//@   assumed
+//@   requires iqr != nil
+//@   modifies ghost(iqr, "iqrN"), ghost(iqr, "iqrStart"), iqr.rrcs, iqr.isDirty
+//@   ensures implies(result == nil, numRecords <= old(ghost(iqr, "iqrN")) && ghost(iqr, "iqrN") == old(ghost(iqr, "iqrN")) - numRecords && ghost(iqr, "iqrStart") == old(ghost(iqr, "iqrStart")) + numRecords)
+//@   ensures implies(numRecords >= 0 && numRecords <= old(ghost(iqr, "iqrN")), result == nil)
+//@   note the column-value maps of the IQR are abstracted by the interval view
+//@ end
+
+//@ func (*IQR).DiscardAfter
+//@   assumed
+//@   requires iqr != nil
+//@   modifies ghost(iqr, "iqrN"), iqr.rrcs, iqr.isDirty
+//@   ensures implies(result == nil && numRecords <= uint64(old(ghost(iqr, "iqrN"))), uint64(ghost(iqr, "iqrN")) == numRecords)
+//@   ensures implies(result == nil && numRecords > uint64(old(ghost(iqr, "iqrN"))), ghost(iqr, "iqrN") == old(ghost(iqr, "iqrN")))
+//@   ensures ghost(iqr, "iqrN") >= 0
+//@ end
+
+//@ func (*IQR).Append
+//@   assumed
+//@   requires iqr != nil
+//@   modifies ghost(iqr, "iqrN"), iqr.rrcs, iqr.isDirty
+//@   ensures implies(result == nil && other != nil, ghost(iqr, "iqrN") == old(ghost(iqr, "iqrN")) + ghost(other, "iqrN"))
+//@ end
